@@ -170,6 +170,10 @@ SPECS["C09"] = {
         {"name": "H3-resize", "pkg": "engine/pool", "files": ["pool/c09.go"], "fn": "VerifC09Resize",
          "what": "SetWorkerCount(a) then (b, wait) with a,b in 0..2 while a task arrives", "reach": ["resized"],
          "quick": {"params": {"P": 1}, "unwind": 30, "wall_s": 300}, "thorough": {"params": {"P": 2}, "unwind": 30, "wall_s": 1500}},
+        {"name": "H3-resize-seq", "pkg": "engine/pool", "files": ["pool/c09.go"], "fn": "VerifC09ResizeSeq",
+         "what": "a in 1..2 (thorough 1..3) workers, 0..a of them busy with gated tasks, then SetWorkerCount(b), SetWorkerCount(c) with b,c symbolic while the gate opens: the pool settles at c workers", "reach": ["settled"],
+         "quick": {"params": {"MAXW": 2, "P": 1}, "unwind": 30, "wall_s": 600},
+         "thorough": {"params": {"MAXW": 3, "P": 2}, "unwind": 30, "wall_s": 3000}},
         {"name": "H4-rounds", "pkg": "engine/pool", "files": ["pool/c09.go"], "fn": "VerifC09Rounds",
          "what": "2 rounds of AddTask+WaitAll on one worker (workers woken by an earlier WaitAll broadcast race the next submission)", "reach": ["rounds-done"],
          "quick": {"params": {"W": 1, "R": 2, "P": 3}, "unwind": 30, "wall_s": 600},
@@ -285,13 +289,20 @@ SPECS["C16"] = {
                    "or 2 arbitrary bytes) in four concretely constructed debugger states (fresh, finished run, thread suspended at top level, suspended "
                    "inside a call); every implicit panic site is an obligation; afterwards the debugger lock must be free and status must answer.",
     "level_text": "bounded: all command lines in the stated vocabulary, 1 (quick) or 2 (thorough) commands in sequence, 4 states: no panic, no lock left held, status still answers",
-    "level_note": "trusts go/ssa, gosym (sync model incl. RWMutex/Cond), z3; JSON-encodability of results is not checked (encoding/json is reflection)",
+    "level_note": "trusts go/ssa, gosym (sync model incl. RWMutex/Cond), z3; results are handed to the real encoding/json natively (concrete data on every path)",
     "harnesses": [
         {"name": "H1-state-%d" % k, "pkg": "interpreter", "files": _C16, "fn": "VerifC16Total",
          "what": "state %d (%s), one command line with 0..2 arguments" % (k, n), "reach": ["state-built", "command-returned", "status-answered"],
          "quick": {"params": {"STATE": k, "NCMD": 1, "MAXARGS": 2}, "unwind": 40, "wall_s": 600},
          "thorough": {"params": {"STATE": k, "NCMD": 1, "MAXARGS": 3}, "unwind": 40, "wall_s": 2400}}
-        for k, n in enumerate(["fresh", "finished run", "suspended at top level", "suspended inside a call"])
+        for k, n in enumerate(["fresh", "finished run", "suspended at top level", "suspended inside a call", "suspended by break-on-error at a failing raise"])
+    ] + [
+        {"name": "H3-values-state-%d" % k, "pkg": "interpreter", "files": _C16, "fn": "VerifC16Total",
+         "what": "state %d with a program variable (state 4: the data of the raised error) holding one of 11 values of the ECAL value universe (non-finite numbers, nested containers, number-keyed map, function): every result is JSON-encodable" % k,
+         "reach": ["state-built", "command-returned", "status-answered"],
+         "quick": {"params": {"STATE": k, "NCMD": 1, "MAXARGS": 1, "VALUES": 1}, "unwind": 40, "wall_s": 600},
+         "thorough": {"params": {"STATE": k, "NCMD": 1, "MAXARGS": 2, "VALUES": 1}, "unwind": 40, "wall_s": 2400}}
+        for k in (2, 3, 4)
     ] + [
         {"name": "H1-%s-3args-state-%d" % (cn, k), "pkg": "interpreter", "files": _C16, "fn": "VerifC16Total",
          "what": "state %d, command %s with 0..3 arguments (expressions that parse but fail when evaluated are in the vocabulary)" % (k, cn), "reach": ["state-built", "command-returned", "status-answered"],
@@ -306,7 +317,7 @@ SPECS["C16"] = {
         for k in (0, 2, 3)
     ],
     "assumptions": ["argument vocabulary as listed in the harness", "program thread id 1"],
-    "outside": ["telnet debug server / CLI", "JSON encoding of results", "more than 2 commands in sequence"],
+    "outside": ["telnet debug server / CLI", "more than 2 commands in sequence", "values beyond the 11 listed in the harness"],
 }
 
 _C07 = ["interpreter/common.go", "interpreter/c07.go"]
